@@ -16,6 +16,7 @@ require (
 require (
 	github.com/oklog/ulid/v2 v2.1.1 // indirect
 	github.com/twmb/murmur3 v1.1.8 // indirect
+	go.uber.org/mock v0.6.0 // indirect
 	golang.org/x/sys v0.43.0 // indirect
 )
 
